@@ -1,0 +1,57 @@
+//go:build verif
+
+package core
+
+import (
+	"path"
+	"strings"
+
+	"github.com/martian-lang/martian/martian/util"
+)
+
+// Trace points recording which metadata object each journal file was
+// attributed to by Node.refreshState, for external verification machinery.
+//
+// The record carries the journal file name as found on disk, and the
+// journal base name, journal prefix and current uniquifier of the metadata
+// object which received the notification, i.e. what that object's own job
+// would have used to write its notifications.
+
+func verifRouteMeta(filename, uniquifier string, m *Metadata) {
+	if m == nil {
+		util.VerifPoint("refresh:unrouted", filename)
+		return
+	}
+	m.mutex.Lock()
+	u := m.uniquifier
+	m.mutex.Unlock()
+	base := ""
+	if m.journalPath != "" {
+		base = path.Base(m.journalPath)
+	}
+	util.VerifPoint("refresh:route", filename, base, m.journalPrefix, u, uniquifier, m.fqname)
+}
+
+func verifRouteChunk(filename, uniquifier string, chunk *Chunk) {
+	if chunk == nil {
+		verifRouteMeta(filename, uniquifier, nil)
+	} else {
+		verifRouteMeta(filename, uniquifier, chunk.metadata)
+	}
+}
+
+func verifRouteFork(filename, uniquifier, state string, fork *Fork) {
+	if fork == nil {
+		verifRouteMeta(filename, uniquifier, nil)
+	} else if strings.HasPrefix(state, SplitPrefix) {
+		verifRouteMeta(filename, uniquifier, fork.split_metadata)
+	} else if strings.HasPrefix(state, JoinPrefix) {
+		verifRouteMeta(filename, uniquifier, fork.join_metadata)
+	} else {
+		verifRouteMeta(filename, uniquifier, fork.metadata)
+	}
+}
+
+func verifUnrouted(filename string) {
+	util.VerifPoint("refresh:unrouted", filename)
+}
